@@ -175,8 +175,48 @@ def r4_setters(ctx):
     ctx.floor('C04.R4', 'blueprint setters checked', n, 6)
 
 
+# the only place where a component is anchored to the root scope on purpose: the framework's own items (request head, body, ...)
+ROOT_SCOPE_ALLOWED = {'ComponentDb::build': 'framework primitives are visible to the whole application'}
+
+
+def r5_scope_provenance(ctx):
+    ctx.rule('C04.R5', 'P7 provenance: every component record built in analyses::components::db (synthetic constructors for prebuilt/config types, '
+             'matchers, transformers, bound generics, ...) takes its scope_id from the scope of the component it derives from '
+             '(UserComponentDb::scope_id / ComponentDb::scope_id) or from a parameter — never from ScopeGraph::root_scope_id, except in the '
+             'reviewed table (framework items in ComponentDb::build). A component hoisted to the root scope becomes visible to sibling '
+             'blueprints and overrides the root\'s own registration.')
+    n = 0
+    for b in ctx.fb.bodies('pavexc'):
+        if b.is_promoted or 'analyses::components::db' not in b.nid:
+            continue
+        defs = None
+        k = 0
+        for bb, j, st in b.all_assigns():
+            rv = st['rv']
+            if rv['k'] != 'agg' or rv.get('ak') != 'adt' or 'scope_id' not in rv.get('fields', []):
+                continue
+            defs = defs or Defs(b)
+            n += 1
+            k += 1
+            pl = op_place(rv['ops'][rv['fields'].index('scope_id')])
+            calls, locs = set(), set()
+            if pl is not None:
+                sl, locs = backward_slice(b, pl['l'], defs)
+                calls = {c for c, _, _ in slice_calls(sl)}
+            short = '::'.join(b.nid.split('::')[-2:])
+            root = any(c.endswith('::root_scope_id') for c in calls)
+            getter = any(c.endswith('::scope_id') for c in calls)
+            param = any(1 <= l <= b.raw['argc'] for l in locs)
+            ok = (getter or param or not calls) and (not root or short in ROOT_SCOPE_ALLOWED)
+            ctx.ob('C04.R5', 'scope-of|%s|%s#%d' % (short, rv.get('var'), k), ok, b.loc(bb, st),
+                   '%s.scope_id built in %s derives from %s%s' % (rv.get('var'), short, sorted(c.split('::')[-2] + '::' + c.split('::')[-1] for c in calls if 'scope' in c.lower()) or 'a parameter / field',
+                                                                 '' if ok else ': anchored to the ROOT scope'))
+    ctx.floor('C04.R5', 'component records with a scope built in components::db', n, 10)
+
+
 def check(ctx):
     r1_lookup_direction(ctx)
     r2_scopes_and_overrides(ctx)
     r3_clone_guard(ctx)
     r4_setters(ctx)
+    r5_scope_provenance(ctx)
